@@ -331,4 +331,23 @@ CHECKS = {
         "quick": [T("TestC15", 8, 40, steps=30)],
         "thorough": [T("TestC15", 16, 1500, steps=40, timeout=3000)],
     },
+    "C16": {
+        "level": "exploration",
+        "rule": ("rapid state machine on a real node (std world, audit on/off): lifecycle operations freeze/activate/logout/update "
+                 "on 3 appchains and 5 services by the proper callers, each followed later by a drawn outcome (three approving or "
+                 "rejecting votes), blocks of 1-3 IBTP requests with the next index between drawn service pairs (incl. a "
+                 "blacklisted and a missing destination) before, during and after every transition, restarts. Governance blocks and "
+                 "IBTP blocks are separate, so the state at request time is the stored record read by a view call before the block. "
+                 "Oracle: (A) source service not usable => request rejected; destination missing / not usable / blacklisting the "
+                 "source => if accepted then TxStatus and GetStatus are BEGIN_FAILURE, never BEGIN; both fine => accepted as BEGIN. "
+                 "(B) every status change of an object in a block is a path of <=3 transitions of the declared state machine "
+                 "(tables transcribed from bitxhub-core appchain-mgr/service-mgr) and the block contains an operation, conclusion or "
+                 "cascade concerning that object. (C) forbidden is absorbing. (D) whenever an appchain is frozen or forbidden none of "
+                 "its services is available/freezing. Non-trivial = an IBTP whose source or destination is unusable after >=2 "
+                 "lifecycle steps on it or its chain; distinct = hash of history."),
+        "assumptions": ["rules, roles and nodes are exercised by the C03, C15 and C17 checks; this check covers appchains and services",
+                        "several operations in one block (votes concluding a proposal and restoring a locked one) are accepted as a path of up to three declared transitions"],
+        "quick": [T("TestC16", 8, 40, steps=35)],
+        "thorough": [T("TestC16", 16, 1500, steps=50, timeout=3000)],
+    },
 }
